@@ -225,6 +225,19 @@ func (x *c03) encCase(s encScript) {
 	var accepted [][]byte
 	var rejected []byte
 	failed := s.wleft >= 0
+	delay0 := s.delay0
+	flushedNow := func(what string) {
+		// C03_flushed_after on the implementation: nothing may be left behind by a flushing operation
+		if failed {
+			return
+		}
+		if m := wireClause(bytes.Join(w.snapshotWrites(), nil), accepted, nil, true); m != "" {
+			c.Emit("direct c03_flushed_after %d FAIL right after %s returned nil: %s", n, what, m)
+		} else {
+			c.Emit("direct c03_flushed_after %d ok", n)
+		}
+		c.Stat("direct_flushed_after", 1)
+	}
 	for _, o := range s.ops {
 		switch o.kind {
 		case 'W':
@@ -232,6 +245,9 @@ func (x *c03) encCase(s encScript) {
 			res = append(res, resText(err))
 			if err == nil {
 				accepted = append(accepted, encode(o.pkt))
+				if !o.async || delay0 {
+					flushedNow("a flushed write")
+				}
 			} else if errKind(err) != "decode" {
 				failed = true
 				if rejected == nil {
@@ -243,6 +259,8 @@ func (x *c03) encCase(s encScript) {
 			res = append(res, resText(err))
 			if err != nil {
 				failed = true
+			} else {
+				flushedNow("Flush")
 			}
 		case 'T':
 			seen, clause := timerOp(w, accepted, failed || s.delay0)
@@ -262,6 +280,7 @@ func (x *c03) encCase(s encScript) {
 			failed = true
 			res = append(res, "-")
 		case 'D':
+			delay0 = o.zero
 			if o.zero {
 				e.SetMaxWriteDelay(0)
 			} else {
@@ -409,6 +428,7 @@ func (x *c03) connCase(s connScript) {
 	var rejected []byte
 	failed := s.wleft >= 0
 	closedAt := -1 // accepted sends at the moment of the first Close
+	delay0 := s.delay0
 	for _, o := range s.ops {
 		switch o.kind {
 		case 'S':
@@ -416,6 +436,14 @@ func (x *c03) connCase(s connScript) {
 			res = append(res, resText(err))
 			if err == nil {
 				accepted = append(accepted, encode(o.pkt))
+				if (!o.async || delay0) && !failed {
+					if msg := wireClause(bytes.Join(m.snapshotWrites(), nil), accepted, nil, true); msg != "" {
+						c.Emit("direct c03_flushed_after %d FAIL right after a flushed Send returned nil: %s", n, msg)
+					} else {
+						c.Emit("direct c03_flushed_after %d ok", n)
+					}
+					c.Stat("direct_flushed_after", 1)
+				}
 			} else {
 				failed = true
 				if rejected == nil && errKind(err) != "decode" {
@@ -487,6 +515,7 @@ func (x *c03) connCase(s connScript) {
 			conn.SetReadTimeout(0)
 			res = append(res, "-")
 		case 'D':
+			delay0 = o.zero
 			if o.zero {
 				conn.SetMaxWriteDelay(0)
 			} else {
